@@ -14,13 +14,14 @@ def handler (mode : String) (line : String) : String :=
   match mode with
   | "model" =>
       match (parse line).bind caseOf? with
-      | some c => toStr (obsT (run c))
+      | some c => if wfCase c then toStr (obsT (run c)) else "(bad-case)"
       | none => "(bad-case)"
   | "oracle" =>
       match line.splitOn "\t" with
       | [c, o] =>
           match (parse c).bind caseOf? with
           | some cs =>
+              if !wfCase cs then (if o == "(bad-case)" then "ok" else "fail step=0 clause=ill-formed-case-not-refused") else
               match (parse o).bind obsOf? with
               | some ob => verdictStr (Spec.check cs ob)
               | none => "fail step=0 clause=unparsable-observation"
